@@ -14,7 +14,7 @@ var Dict = []string{
 	"(", ")", "//", "/*", "*/", "/*/", "#", "###", "@a", "@b", "@cat", "\"", "\\", "/", "{", "}", "[", "]", " ", "\n", "\r\n", "\r", "\t", "\x00", "\xff", "\xc3",
 	"any", "empty", "regex", "jsight", "json-rpc-2.0", "0.3", "/a", "/a/{id}", "/{id}", "{id}", "htmlFormEncoded", "noFormat",
 	"{\"id\": 1}", "[@a]", "@a | @b", "// {optional: true}", "// {type: \"@a\"}", "// {allOf: \"@a\"}", "// {enum: @e}", "// {or: [\"@a\", \"@b\"]}",
-	"// {min: 1200}", "// {or: [\"uuid\",\"email\"], nullable:false}", "// {or: [\"@a\", \"string\"]}", "// {nullable: true}", "// {additionalProperties: \"@a\"}", "// {additionalProperties: true}", "// {type: \"\"}", "// {type: \"mixed\"}", "// {const: true}", "// {regex: \"[a-\"}", "{\"@a\": 1}", "[1, \"x\"]", "\"str\"", "12.50", "null", "true",
+	"@a|@b", "@a  |  @b", "// {allOf: \"@a\"}", "201\n", "404\n", "// {min: 1200}", "// {or: [\"uuid\",\"email\"], nullable:false}", "// {or: [\"@a\", \"string\"]}", "// {nullable: true}", "// {additionalProperties: \"@a\"}", "// {additionalProperties: true}", "// {type: \"\"}", "// {type: \"mixed\"}", "// {const: true}", "// {regex: \"[a-\"}", "{\"@a\": 1}", "[1, \"x\"]", "\"str\"", "12.50", "null", "true",
 	"/ab+/", "/[a-/", "/\\d+/", "inc.jst", "sub/inc2.jst", "\"\"", "..", ".", "a.jst", "self.jst", "empty.jst", "resp.jst", "sub", "nope.jst",
 	"\n  200 any\n", "\nGET /x\n  200 any\n", "\nTYPE @a\n  {}\n", "\nMACRO @m\n  200 any\n", "\nPASTE @m\n", "\nENUM @e\n  [1, 2]\n",
 }
